@@ -368,6 +368,9 @@ def _session_ops(w0, rng, wcap):
 def replay(case):
     F, S, config = _mods()
     thr = float(config.EFFECTIVE_SUPPORT_THRESHOLD)
+    spec = case["bank"]
+    if not (isinstance(spec, dict) and isinstance(spec.get("scale", {}), dict) and {"bank", "num_filts", "low_hz", "high_hz", "rate"} <= set(spec)):
+        raise ValueError("malformed C07 case (bank specification)")  # harness problem, not a verdict on the real code
     try:
         bank = _build(F, S, case["bank"])
     except Exception as e:
